@@ -1,7 +1,7 @@
 #!/venv/bin/python
 """tools/try_seed.py <seeded/dir> <check ids...> [--tier quick]
-Applies seeded/<dir>/patch.diff to /repo, runs the given checks, records exit codes and VIOLATION lines in
-seeded/<dir>/result.json, and undoes the patch (git -C /repo checkout -- .).  /repo must be clean."""
+Applies seeded/<dir>/patch.diff in a scratch worktree of /repo's HEAD, runs the given checks against that
+checkout (VERIF_REPO), records exit codes and VIOLATION lines in seeded/<dir>/result.json and removes the worktree."""
 import json
 import os
 import subprocess
@@ -18,22 +18,27 @@ def main():
         tier = "thorough"
     d, checks = args[0], args[1:]
     patch = os.path.join(d, "patch.diff")
-    st = subprocess.run(["git", "-C", "/repo", "status", "--porcelain", "--untracked-files=no"], capture_output=True, text=True).stdout.strip()
-    if st:
-        sys.exit("/repo is not clean:\n" + st)
-    subprocess.check_call(["git", "-C", "/repo", "apply", os.path.abspath(patch)])
+    # a scratch worktree of /repo's HEAD carries the patch; /repo itself is not touched (several seeds can run at once)
+    name = os.path.basename(os.path.abspath(d))
+    wt = "/tmp/tryseed_%s_%d" % (name, os.getpid())
+    subprocess.check_call(["git", "-C", "/repo", "worktree", "add", "-q", "--detach", wt, "HEAD"])
     res = {}
     try:
+        subprocess.check_call(["git", "-C", wt, "apply", os.path.abspath(patch)])
         for c in checks:
             t0 = time.time()
             p = subprocess.run([os.path.join(V, "check"), c, "--tier", tier], capture_output=True, text=True, cwd=V,
-                               env=dict(os.environ, VERIF_EVIDENCE_SUFFIX=".seedrun"))
+                               env=dict(os.environ, VERIF_EVIDENCE_SUFFIX=".seedrun-" + name, VERIF_REPO=wt))
             lines = [l for l in p.stdout.splitlines() if l.startswith(("VIOLATION", "KNOWN-FINDING", "MACHINERY"))]
             res[c] = {"exit": p.returncode, "wall_s": round(time.time() - t0, 1), "lines": [l[:400] for l in lines],
                       "summary": [l for l in p.stdout.splitlines() if (" %s:" % tier) in l][-1:]}
-            print(c, "exit", p.returncode, "violations", sum(1 for l in lines if l.startswith("VIOLATION")))
+            print(name, c, "exit", p.returncode, "violations", sum(1 for l in lines if l.startswith("VIOLATION")))
+            try:
+                os.remove(os.path.join(V, "evidence", "%s.seedrun-%s.json" % (c, name)))
+            except OSError:
+                pass
     finally:
-        subprocess.check_call(["git", "-C", "/repo", "checkout", "--", "."])
+        subprocess.call(["git", "-C", "/repo", "worktree", "remove", "--force", wt])
     out = os.path.join(d, "result.json")
     old = json.load(open(out)) if os.path.exists(out) else {}
     old.update(res)
